@@ -165,6 +165,10 @@ func checkC06(e *Env) {
 		)
 		e.requireStore("RESULT", api, "param:e.Response.Body", "call:(*bytes.Buffer).Bytes(local:buf)", "the MI-encoded payload")
 	}
+	// no pointer to one variable is collected over several iterations where
+	// the signatures are read back and verified (seed C06-g: every vouched
+	// subset pointing at the last one after a re-read)
+	loopAlias(e, "ALIAS", e.fns("bundle.Read", "bundle/signature.NewVerifier", "bundle/signature.(*Signer).UpdateSignatures")...)
 	e.R.Floor("FORALL", 3)
 	// one subset hash / one verification per exchange and per vouched subset
 	iterationsIndependent(e, "ITER", e.fns("bundle/cmd/sign-bundle.addSignature", "bundle/signature.(*Signer).UpdateSignatures", "bundle/signature.(*Signer).AddExchange",
